@@ -18,17 +18,37 @@ from vf.gen import schemes as S
 LEVEL = "exploration"
 
 
-def evaluate(spec, variant):
+def _data_digest(scheme):
+    return core.digest({k: {n: np.asarray(v.values) for n, v in ds.data_vars.items()} for k, ds in scheme.data.items()})
+
+
+def evaluate(spec, variant, again=0):
+    """Build an Optimizer from the scheme and evaluate the objective; `again` further optimizers are then built
+    from the *same* scheme object (a history of constructions): the scheme's data must be left as handed in and
+    every later optimizer must minimise the same objective."""
     from glotaran.optimization.optimizer import Optimizer
 
     scheme = S.build_scheme(spec)
+    before = _data_digest(scheme)
+    pens = []
     with warnings.catch_warnings(record=True) as w:
         warnings.simplefilter("always")
-        opt = Optimizer(scheme, verbose=False, raise_exception=True)
-        labels, _, _, _ = scheme.parameters.get_label_value_and_bounds_arrays(exclude_non_vary=True)
-        opt._free_parameter_labels = labels
-        pen = np.asarray(opt.objective_function(S.x_vector(spec, variant)), dtype=float)
-    return opt, pen, [str(x.message) for x in w]
+        for k in range(1 + again):
+            o = Optimizer(scheme, verbose=False, raise_exception=True)
+            labels, _, _, _ = scheme.parameters.get_label_value_and_bounds_arrays(exclude_non_vary=True)
+            o._free_parameter_labels = labels
+            pens.append(np.asarray(o.objective_function(S.x_vector(spec, variant)), dtype=float))
+            if k == 0:
+                opt = o
+    hist = []
+    if _data_digest(scheme) != before:
+        hist.append(V("scheme-data-modified-by-optimizer-construction"))
+    for k, p in enumerate(pens[1:], 2):
+        if p.shape != pens[0].shape or not np.array_equal(p, pens[0]):
+            hist.append(V("later-optimizer-from-same-scheme-differs", optimizer_number=k,
+                          max_abs=float(np.abs(p - pens[0]).max()) if p.shape == pens[0].shape else None))  # fmt: skip
+            break
+    return opt, pens[0], [str(x.message) for x in w], hist
 
 
 def compare_penalty(pen, ref):
@@ -55,8 +75,8 @@ def case_scheme(case):
         return core.ood("ambiguous-alignment")
     if ref["cond"] > 1e8:
         return core.ood("ill-conditioned")
-    opt, pen, warns = evaluate(spec, spec["x_variant"])
-    vs = compare_penalty(pen, ref)
+    opt, pen, warns, hist = evaluate(spec, spec["x_variant"], again=2)
+    vs = compare_penalty(pen, ref) + hist
     # additional penalties reported per group
     got_add = [list(map(float, g.get_additional_penalties())) for g in opt._optimization_groups]
     want_add = ref["additional_penalty"]
